@@ -183,7 +183,11 @@ class C03(hc.PProp):
                 if i >= undef_at:
                     if x['reading'] == 'undef':
                         stats['undefined_messages_judged'] += 1
-                    if got:
+                    # an upstream request left visibly incomplete (no last-chunk / fewer bytes than its Content-Length, then the connection closed) is squid
+                    # rejecting the message after having relayed its head: the origin was given no delimited request. Only complete ones count.
+                    if got and not any(r.complete for r in got):
+                        stats['undefined_cut_short_upstream'] = stats.get('undefined_cut_short_upstream', 0) + 1
+                    if any(r.complete for r in got):
                         cls = 'C03:undefined-framing-forwarded:%s' % x['kind'] if i == undef_at else 'C03:forwarded-after-undefined:%s' % readings[undef_at]['kind']
                         V.append(Violation(cls, '%s message %d (%s) was forwarded although message %d (%s) has no defined delimitation; upstream body %r' % (cname, i, x['kind'], undef_at, readings[undef_at]['kind'], got[0].body[:80])))
                     continue
